@@ -22,6 +22,7 @@ CONSTANTS
   WsLens,     \* set of lengths of whitespace-only lines (in characters of Unit[1]); {} = none
   Blank,      \* TRUE: empty lines allowed
   Suffix,     \* text appended to every code line (e.g. a multi-byte character), <<>> for none
+  PairLines,  \* TRUE: lines holding two touching ready inline elements "<rm..>i</rm><rm..>j</rm>" may be added
   MaxCode,    \* maximal number of code lines
   EmptyDefault, \* TRUE: default-strategy elements are closed right after they are opened (two-line blocks)
   MbCode,     \* TRUE: code lines consist of multi-byte characters only (pairwise distinct per line)
@@ -42,6 +43,8 @@ Inds == {Base + Len(stack)} \cup FreeInd
 
 AddCode  == \E i \in Inds : lines' = Append(lines, [k |-> "code", ind |-> i, n |-> Len(lines) + 1, kind |-> <<>>])
                            /\ UNCHANGED <<stack, nel>>
+AddPair  == PairLines /\ \E i \in Inds : lines' = Append(lines, [k |-> "pair", ind |-> i, n |-> Len(lines) + 1, kind |-> <<>>])
+                           /\ UNCHANGED <<stack, nel>>
 AddBlank == Blank /\ lines' = Append(lines, [k |-> "blank", ind |-> 0, n |-> 0, kind |-> <<>>]) /\ UNCHANGED <<stack, nel>>
 AddWs    == \E w \in WsLens : lines' = Append(lines, [k |-> "ws", ind |-> w, n |-> 0, kind |-> <<>>]) /\ UNCHANGED <<stack, nel>>
 Open     == /\ Len(stack) < D /\ nel < E
@@ -59,7 +62,7 @@ InDefault == stack # <<>> /\ ~stack[Len(stack)][1][2]
 
 Next == /\ Len(lines) < L
         /\ IF EmptyDefault /\ InDefault THEN Close
-           ELSE (CodeCount < MaxCode /\ AddCode) \/ AddBlank \/ AddWs \/ Open \/ Close
+           ELSE (CodeCount < MaxCode /\ AddCode) \/ AddPair \/ AddBlank \/ AddWs \/ Open \/ Close
 
 \* a document can only be completed if the open elements can still be closed
 Feasible == Len(lines) + Len(stack) <= L
@@ -90,6 +93,8 @@ Indent(k) == IF k <= 0 THEN <<>> ELSE Unit \o Indent(k - 1)
 LineTextOf(l) ==
   IF l.k = "code" THEN Indent(l.ind) \o (IF MbCode THEN <<12354 + l.n, 233, 128512 + l.n>>                  \* 3-, 2-, 4-byte
                                           ELSE <<99>> \o CodeA \o Digits(l.n) \o CodeB \o <<59>>) \o Suffix  \* c<n>;
+  ELSE IF l.k = "pair" THEN Indent(l.ind) \o OpenTag(<<"R", FALSE>>, 90 + l.n) \o <<105>> \o Digits(l.n) \o CloseTag(<<"R", FALSE>>)
+                                          \o OpenTag(<<"R", FALSE>>, 190 + l.n) \o <<106>> \o Digits(l.n) \o CloseTag(<<"R", FALSE>>)
   ELSE IF l.k = "blank" THEN <<>>
   ELSE IF l.k = "ws" THEN RepeatCh(Unit[1], l.ind)
   ELSE IF l.k = "open" THEN Indent(l.ind) \o OpenTag(l.kind, l.n)
@@ -102,7 +107,7 @@ JoinLines(ls, i) == IF i > Len(ls) THEN <<>>
 GenDoc == JoinLines(lines, 1)
 Shape == [i \in 1..Len(lines) |-> <<lines[i].k, lines[i].ind>> \o lines[i].kind]
 
-Complete == stack = <<>> /\ lines # <<>> /\ nel >= 1
+Complete == stack = <<>> /\ lines # <<>> /\ (nel >= 1 \/ \E i \in 1..Len(lines) : lines[i].k = "pair")
 
 EmitAll == Complete => /\ Emit("", GenDoc)
                        /\ Emit("", GenDoc \o <<NL>>)
